@@ -114,14 +114,15 @@ Diagnose ==
     ELSE IF Ev.ev = "UpdateAll" THEN "update-all-post-state-differs"
     ELSE "no-spec-action-" \o Ev.ev
 
+IsUpd == Ev.ev \in {"Update", "UpdateAll"}
 Adopt == /\ ~ENABLED Bound
          /\ bad' = Append(bad, <<Ev.tid, l, Diagnose>>)
          /\ hist' = [m \in Minerals |-> IF m \in Touched /\ Has(Ev.obs, m) THEN ObsHist(Obs(m)) ELSE hist[m]]
          /\ cfg'  = [m \in Minerals |-> IF m \in Touched /\ Has(Ev.obs, m) THEN ObsCfg(Obs(m)) ELSE cfg[m]]
          /\ disk' = LoggedDisk
-         /\ nUpd' = [m \in Minerals |-> IF m \in Touched /\ Has(Ev.obs, m) /\ Len(Obs(m).odig) = Len(hist[m]) + 1
+         /\ nUpd' = [m \in Minerals |-> IF IsUpd /\ m \in Touched /\ Has(Ev.obs, m) /\ Len(Obs(m).odig) = Len(hist[m]) + 1
                                         THEN nUpd[m] + 1 ELSE nUpd[m]]
-         /\ Fm' = [m \in Minerals |-> IF m \in Touched /\ Has(Ev.obs, m) /\ Len(Obs(m).odig) = Len(hist[m]) + 1
+         /\ Fm' = [m \in Minerals |-> IF IsUpd /\ m \in Touched /\ Has(Ev.obs, m) /\ Len(Obs(m).odig) = Len(hist[m]) + 1
                                         THEN Append(Fm[m], Ev.fl) ELSE Fm[m]]
          /\ err' = Ev.exc /\ ops' = ops + 1 /\ log' = log
 
